@@ -8,6 +8,7 @@ mod ops_sink;
 mod ops_seq;
 mod ops_io;
 mod ops_token;
+mod ops_float;
 
 #[global_allocator]
 static GLOBAL: ops_seq::Counting = ops_seq::Counting;
@@ -32,6 +33,12 @@ fn handler(op: &str) -> Option<Handler> {
         "SEQ" => Some(ops_seq::seq_handler),
         "SZ" => Some(ops_seq::sz_handler),
         "DROPS" => Some(ops_seq::drops_handler),
+        "F16D" => Some(ops_float::f16d_handler),
+        "F16E" => Some(ops_float::f16e_handler),
+        "FRT32" => Some(ops_float::frt32_handler),
+        "FRT64" => Some(ops_float::frt64_handler),
+        "F16EBLK" => Some(ops_float::f16eblk_handler),
+        "F16EORA" => Some(ops_float::f16eora_handler),
         "TK" => Some(ops_token::tk_handler),
         "TKE" => Some(ops_token::tke_handler),
         "DP" => Some(ops_token::dp_handler),
